@@ -172,6 +172,9 @@ func (ev *Eval) builtin(e *wgen.Builtin) Val {
 				return Val{T: t, S: []Sc{{B: f64bits(s)}}}
 			}
 			r := ev.fdotTerms(a0.S, args[1].S)
+			if bitsf32(r.B) == 0 {
+				r.ZS = true // the sign of a zero sum of products depends on the accumulation (start value, order, fma)
+			}
 			return Val{T: t, S: []Sc{r}}
 		}
 		acc := Sc{}
@@ -509,6 +512,9 @@ func (ev *Eval) floatBuiltin(name string, t *wgen.Type, sc *wgen.Type, args []Va
 			s := ftol(fn(f(x), f(y)), tolOf[name], x, y)
 			if name == "pow" && f(x) <= 0 {
 				s.Ind = true // pow = exp2(y*log2(x)): undefined for x<=0 on some implementations
+			}
+			if name == "atan2" && (x.ZS || y.ZS) {
+				s.Ind = true // atan2(+-0, x < 0) is +-pi: the result follows a zero sign that is not pinned down
 			}
 			return s
 		})
